@@ -372,3 +372,10 @@ def main_wrapper(fn):
     except subprocess.TimeoutExpired as exc:
         print(f'INFRA-ERROR: timeout {exc}', file=sys.stderr)
         sys.exit(2)
+    except SystemExit:
+        raise
+    except BaseException:
+        import traceback
+        traceback.print_exc()
+        print('INFRA-ERROR: the harness itself failed', file=sys.stderr)
+        sys.exit(2)
